@@ -8,7 +8,9 @@ Import ListNotations. Open Scope N_scope.
 """
 TRUSTED = [
     "Coq 8.16.1 kernel and vm_compute; Bignums.BigZ (primitive 63-bit integers) in the Ristretto field arithmetic",
-    "axioms: none",
+    "axioms: none declared; Print Assumptions of C11_generators_distinct lists the kernel's primitive 63-bit integer operations (PrimInt63.*: int, add/sub/mul with carry, "
+    "shifts, comparisons, head0/tail0), which Bignums.BigZ uses under vm_compute — primitives without a Gallina body, not axioms of the development",
+    "coq/Crypto/GenTab*.v: generated once from the implementation's generator bytes (tools/gen_gentab.py); each carries the lemma that the Gallina derivation computes that list",
     "coq/Crypto/Keccak.v and coq/Crypto/Ristretto.v are Gallina models of DEPENDENCIES (sha3, curve25519-dalek: SHAKE256, SHA3-512, RFC 9496 one-way map and encoding), "
     "validated by known-answer examples and by byte equality with the Rust crates on every run; modelled, not verified",
     "coq/Model/Gens.v: label layout and chain indexing, tied to the code by comparing every generator's bytes",
